@@ -1453,6 +1453,9 @@ func handleClientMessage(c *webClient, m clientMessage) error {
 			// We normally redirect at the HTTP level, but the group
 			// description could have been edited in the meantime.
 			username := c.username
+			// AddClient has made us a member of the group.
+			c.group = g
+			leaveGroup(c)
 			return c.write(clientMessage{
 				Type:     "joined",
 				Kind:     "redirect",
